@@ -298,6 +298,33 @@ theorem C12_accepted_derivable (prog : Prog) (terms : Array Term) (steps : List 
   C12_rule_sound prog terms steps _ (Derivable.closed prog terms _)
     (fun s hs hj => .leaf ⟨s, hs, hj, rfl, rfl⟩) hok
 
+
+/-- **Soundness in models**: in every interpretation of the terms that respects congruence and
+validates the checking program — its top-level equalities and every instance of its rules — and
+the `MergeFn` leaves of the proof, every proposition of an accepted proof holds.  (`C12_sound` of
+the equational layer is the case without Rule and Fiat steps.) -/
+theorem C12_sound_in_models (prog : Prog) (terms : Array Term) (steps : List Step) (den : Nat → Nat)
+    (hc : Congruent terms den)
+    (hfiat : ∀ xy ∈ (runActs terms [] prog.globals).eqs, den xy.1 = den xy.2)
+    (hrule : ∀ rl ∈ prog.rules, ∀ σ prems, (∀ p ∈ prems, den p.1 = den p.2) → Matches terms σ rl.body prems →
+      ∀ xy ∈ (runActs terms σ rl.head).eqs, den xy.1 = den xy.2)
+    (hleaf : ∀ s ∈ steps, s.just = .leaf → den s.lhs = den s.rhs)
+    (hok : checkProof prog terms steps = true) : ∀ s ∈ steps, den s.lhs = den s.rhs := by
+  have hD : Closed prog terms (fun a b => den a = den b) := {
+    lit := fun _ _ _ _ => rfl
+    fiatEq := hfiat
+    fiatRefl := fun _ _ _ _ => rfl
+    sym := fun _ _ h => h.symm
+    trans := fun _ _ _ h1 h2 => h1.trans h2
+    congr := by
+      intro l t t' c c' i tt h1 h2 ht hk ht'
+      refine h1.trans ?_
+      apply hc t t' tt ⟨tt.head, tt.kids.set i c'⟩ ht ht' rfl
+      exact (map_set den tt.kids i c' c hk h2).symm
+    ruleEq := hrule
+    ruleRefl := fun _ _ _ _ _ _ _ _ _ _ => rfl }
+  exact C12_rule_sound prog terms steps _ hD hleaf hok
+
 /-- **Alteration of the checking program**: a proof whose conclusion the altered program `prog'`
 does not derive (from the proof's own leaves) is rejected when checked against `prog'` — whatever
 the alteration was (rule removed, premise added, head changed, top-level fact removed or altered). -/
